@@ -303,7 +303,9 @@ class Parser:
         if self.eat("for"):
             trait = t1; t1 = self.type()
         self.expect("{")
-        if trait is not None and trait["name"] != "Default" and (trait["name"], t1.get("name")) not in self.keep_trait_impls:
+        key2 = (trait["name"], "<%s>" % trait["args"][0].get("name")) if (trait is not None and trait.get("args")) else None
+        if trait is not None and trait["name"] != "Default" and (trait["name"], t1.get("name")) not in self.keep_trait_impls \
+                and key2 not in self.keep_trait_impls:
             # trait impls other than Default are glue (From / TryFrom / Display): not translated, listed in the module
             depth = 1
             while depth > 0:
@@ -322,10 +324,19 @@ class Parser:
             if self.at("type") or (self.at("const") and not self.at("fn", 1) and not self.at("unsafe", 1)):
                 while not self.eat(";"): self.i += 1
                 continue
-            f = self.fn(); f["owner"] = t1["name"]
+            f = self.fn()
+            if t1.get("name") is None:
+                # `impl<T: B> From<X> for [..]`: the functions are named after the source type X; Self is the target type
+                f["owner"] = trait["args"][0]["name"]; f["self_type"] = t1
+                f["generics"] = list(g) + f["generics"]
+                f["bounds"] = dict({x: self.bounds.get(x) for x in g}, **f["bounds"])
+            else:
+                f["owner"] = t1["name"]
             fns.append(f)
         self.expect("}")
-        return {"k": "impl", "trait": trait["name"] if trait else None, "type": t1["name"], "generics": g, "fns": fns}
+        tname = t1["name"] if t1.get("name") is not None else trait["args"][0]["name"]
+        return {"k": "impl", "trait": trait["name"] if trait else None, "type": tname, "generics": g, "fns": fns,
+                "key2": list(key2) if key2 else None}
 
     def trait(self):
         self.expect("trait")
@@ -854,11 +865,16 @@ class Gen:
                         self.fns[(it["type"], f["name"])] = f
                 elif it["trait"] == "Default":
                     self.defaults[it["type"]] = it["fns"][0]
-                elif [it["trait"], it["type"]] in [list(x) for x in cfg.get("trait_impls", [])]:
+                elif [it["trait"], it["type"]] in [list(x) for x in cfg.get("trait_impls", [])] or \
+                        (it.get("key2") and it["key2"] in [list(x) for x in cfg.get("trait_impls", [])]):
                     for f in it["fns"]:
                         f["impl_of"] = it["trait"]
                         if it["trait"] == "ShortMessageFactory": f["no_factory_param"] = True
-                        self.fns[(it["type"], f["name"])] = f
+                        fname = f["name"]
+                        if f.get("self_type") is not None:
+                            fname = f["name"] + "_array"        # `From<X> for [..]`: X::from_array
+                            f["name"] = fname
+                        self.fns[(it["type"], fname)] = f
                 else:
                     raise TErr("impl of trait %s is outside the subset" % it["trait"])
             elif it["k"] == "fn":
@@ -930,6 +946,8 @@ class Gen:
     # ---- types
     def ty(self, t, owner=None, generics=(), fngen=()):
         k = t["k"]
+        if k == "path" and t["name"] == "Self" and getattr(self, "_self_type", None) is not None:
+            return self.ty(self._self_type, owner, generics, fngen)
         if k == "ref": return self.ty(t["inner"], owner, generics, fngen)
         if k == "array": return "(Vector %s %s)" % (self.ty(t["elem"], owner, generics, fngen), t["len"])
         if k == "tuple":
@@ -1162,6 +1180,7 @@ class Gen:
         if f["selfkind"] and tk != "message":
             sig.append("(self : %s)" % self.ty({"k": "path", "name": "Self", "args": []}, owner))
         fngen = tuple(f.get("generics", []))
+        self._self_type = f.get("self_type")
         if key in self.needs_impl:
             sig.append("{α : Type} (I : Impl α)")
         if tk == "message":
@@ -1934,8 +1953,10 @@ def load_controller_constants():
     s = strip_comments(open(os.path.join(REPO, "src", "controller_number_mod.rs")).read())
     CONTROLLER_CONSTANTS.update(re.findall(r"pub\s+const\s+([A-Z][A-Z0-9_]*)\s*:\s*ControllerNumber", s))
 
-FILES = [("control_change_14_bit_message.rs", "CCMsg", {"trait_impls": [["TryFrom", "ControlChange14BitMessage"]]}),
-         ("parameter_number_message.rs", "PNMsgFile", {"trait_impls": [["TryFrom", "ParameterNumberMessage"]]}),
+FILES = [("control_change_14_bit_message.rs", "CCMsg", {"trait_impls": [["TryFrom", "ControlChange14BitMessage"],
+                                                                        ["From", "<ControlChange14BitMessage>"]]}),
+         ("parameter_number_message.rs", "PNMsgFile", {"trait_impls": [["TryFrom", "ParameterNumberMessage"],
+                                                                      ["From", "<ParameterNumberMessage>"]]}),
          ("control_change_14_bit_message_scanner.rs", "CCScan", {}),
          ("parameter_number_message_scanner.rs", "PNScan", {}),
          ("polling_parameter_number_message_scanner.rs", "PollScan", {}),
